@@ -215,7 +215,7 @@ PROPS["C20"] = dict(
 )
 
 PROPS["C11"] = dict(
-    contracts=["stdlib", "util_timeout", "util_retry", "util_url", "connectionpool"], bounded=["c11"], level="other", trusted_base=COMMON_TRUSTED,
+    contracts=["stdlib", "util_timeout", "util_retry", "util_url", "connectionpool", "util_request"], bounded=["c11"], level="other", trusted_base=COMMON_TRUSTED,
     assumptions=["connection boundary contracts (see C01)"],
     not_decided=["the framing decision table of HTTPConnection.request and body_to_chunks are decided by the bounded wire check only (not yet under the VC generator)"],
     explanation="Two parts. (1) PROVED over the real HTTPConnectionPool.urlopen: every recursion (retry after error, redirect, status retry) passes on the caller's settings unchanged (site obligation settings-carried-through-every-recursion, which includes body_pos handling "
